@@ -240,6 +240,13 @@ func caseIsolation(t *testing.T, tp *simrt.Tape, res *Result) {
 			h.callFailed("AddWarrior", f)
 			return
 		}
+		if hd == nil {
+			if !h.model.Executed {
+				h.res.add("C13", "C13 refinement AddWarrior returned an error or nil", map[string]any{})
+				h.dead = true
+			}
+			return // refused mid-battle: acceptable (undefined state)
+		}
 		h.box.handles = append(h.box.handles, hd)
 		h.data = append(h.data, asAdded)
 		h.caller = append(h.caller, d)
